@@ -38,6 +38,7 @@ CONSTANTS Ids,          \* document ids
           MaxEp, MaxSid,
           WithReader, WithCopy, WithMerger, WithPurge, WithMemMerge,
           MaxMergeInputs, \* bound on the size of one merge task (0 = any)
+          MaxOpens,      \* bound on the number of reader / copy opens (keeps simulation from toggling them forever)
           AsyncRelease   \* TRUE: eligibility for removal is recorded by an asynchronous step (as in the code);
                          \* FALSE: an epoch is eligible as soon as nobody holds it (most aggressive purging)
 
@@ -58,10 +59,11 @@ VARIABLES batch,        \* b -> [puts, dels]   (collapsed ops of batch b)
           elig,         \* eligibleForRemoval (epochs)
           rdr,          \* snapshot held by a reader, or NoSnap
           cPc, cSnap, cSched, cCopied,  \* online copy
-          dirty         \* disk/inel/bolt/elig changed since the last purge round began
+          dirty,        \* disk/inel/bolt/elig changed since the last purge round began
+          nopen         \* number of readers / copies opened so far (bounded by MaxOpens)
 vars == <<batch, nsub, intro, segdocs, root, nextEp, nextSid, wst, pend, acked,
           pPc, pSnap, pAcks, pNew, lastP, mPc, mSnap, mTask, mNew, lastM,
-          bolt, disk, inel, elig, rdr, cPc, cSnap, cSched, cCopied, dirty>>
+          bolt, disk, inel, elig, rdr, cPc, cSnap, cSched, cCopied, dirty, nopen>>
 
 -----------------------------------------------------------------------------
 -----------------------------------------------------------------------------
@@ -87,7 +89,7 @@ Init == /\ batch = [n \in 1..MaxB |-> NoBatch] /\ nsub = 0 /\ intro = <<>>
         /\ bolt = [e \in 1..MaxEp |-> NoSnap] /\ disk = {} /\ inel = {} /\ elig = {}
         /\ rdr = NoSnap
         /\ cPc = "idle" /\ cSnap = NoSnap /\ cSched = {} /\ cCopied = {}
-        /\ dirty = FALSE
+        /\ dirty = FALSE /\ nopen = 0
 
 Up == nextEp <= MaxEp /\ nextSid <= MaxSid
 
@@ -103,7 +105,7 @@ Prepare(w, bt) ==
                    obs |-> [ s \in Sids(root) |-> Obsoleted(segdocs[s], bt) ]]]
   /\ nextSid' = nextSid + 1
   /\ UNCHANGED <<intro, root, nextEp, pend, acked, pPc, pSnap, pAcks, pNew, lastP,
-                 mPc, mSnap, mTask, mNew, lastM, bolt, disk, inel, elig, rdr, cPc, cSnap, cSched, cCopied>>
+                 mPc, mSnap, mTask, mNew, lastM, bolt, disk, inel, elig, rdr, cPc, cSnap, cSched, cCopied, nopen>>
   /\ UNCHANGED dirty
 
 \* introducer.go introduceSegment
@@ -118,7 +120,7 @@ IntroSegment(w) ==
      /\ wst' = [wst EXCEPT ![w] = IF Safe THEN [@ EXCEPT !.st = "applied"] ELSE IdleW]
   /\ nextEp' = nextEp + 1
   /\ UNCHANGED <<batch, nsub, segdocs, nextSid, acked, pPc, pSnap, pAcks, pNew, lastP,
-                 mPc, mSnap, mTask, mNew, lastM, bolt, disk, elig, rdr, cPc, cSnap, cSched, cCopied>>
+                 mPc, mSnap, mTask, mNew, lastM, bolt, disk, elig, rdr, cPc, cSnap, cSched, cCopied, nopen>>
   /\ dirty' = TRUE
 
 \* safe mode: Batch returns after <-introduction.persisted
@@ -126,7 +128,7 @@ BatchReturn(w) ==
   /\ wst[w].st = "applied" /\ wst[w].b \in acked
   /\ wst' = [wst EXCEPT ![w] = IdleW]
   /\ UNCHANGED <<batch, nsub, intro, segdocs, root, nextEp, nextSid, pend, acked, pPc, pSnap, pAcks, pNew, lastP,
-                 mPc, mSnap, mTask, mNew, lastM, bolt, disk, inel, elig, rdr, cPc, cSnap, cSched, cCopied>>
+                 mPc, mSnap, mTask, mNew, lastM, bolt, disk, inel, elig, rdr, cPc, cSnap, cSched, cCopied, nopen>>
   /\ UNCHANGED dirty
 
 \* ---------------- persister (persister.go) ----------------
@@ -135,7 +137,7 @@ PTake ==
   /\ pSnap' = root /\ pAcks' = pend /\ pend' = {}
   /\ pPc' = IF WithMemMerge /\ Cardinality(MemSids(root)) >= 2 THEN "mmWrite" ELSE "write"
   /\ UNCHANGED <<batch, nsub, intro, segdocs, root, nextEp, nextSid, wst, acked, pNew, lastP,
-                 mPc, mSnap, mTask, mNew, lastM, bolt, disk, inel, elig, rdr, cPc, cSnap, cSched, cCopied>>
+                 mPc, mSnap, mTask, mNew, lastM, bolt, disk, inel, elig, rdr, cPc, cSnap, cSched, cCopied, nopen>>
   /\ UNCHANGED dirty
 
 \* mergeAndPersistInMemorySegments: mark the new name ineligible, merge all
@@ -148,7 +150,7 @@ PMMWrite ==
   /\ segdocs' = [segdocs EXCEPT ![nextSid] = MergedDocsOf(segdocs, pSnap, MemSids(pSnap))]
   /\ pPc' = "mmIntro"
   /\ UNCHANGED <<batch, nsub, intro, root, nextEp, wst, pend, acked, pSnap, pAcks, lastP,
-                 mPc, mSnap, mTask, mNew, lastM, bolt, elig, rdr, cPc, cSnap, cSched, cCopied>>
+                 mPc, mSnap, mTask, mNew, lastM, bolt, elig, rdr, cPc, cSnap, cSched, cCopied, nopen>>
   /\ dirty' = TRUE
 
 PMMIntro ==
@@ -159,7 +161,7 @@ PMMIntro ==
      /\ pPc' = IF r.skipped THEN "write" ELSE "mmCommit"
   /\ nextEp' = nextEp + 1
   /\ UNCHANGED <<batch, nsub, intro, segdocs, nextSid, wst, pend, acked, pSnap, pAcks, pNew, lastP,
-                 mPc, mSnap, mTask, mNew, lastM, bolt, disk, elig, rdr, cPc, cSnap, cSched, cCopied>>
+                 mPc, mSnap, mTask, mNew, lastM, bolt, disk, elig, rdr, cPc, cSnap, cSched, cCopied, nopen>>
   /\ dirty' = TRUE
 
 \* persistSnapshotMaybeMerge: persist the EQUIVALENT snapshot under the OLD epoch
@@ -171,7 +173,7 @@ PMMCommit ==
      /\ inel' = inel \ Files(eq)
   /\ pPc' = "ack"
   /\ UNCHANGED <<batch, nsub, intro, segdocs, root, nextEp, nextSid, wst, pend, acked, pSnap, pAcks, pNew, lastP,
-                 mPc, mSnap, mTask, mNew, lastM, disk, elig, rdr, cPc, cSnap, cSched, cCopied>>
+                 mPc, mSnap, mTask, mNew, lastM, disk, elig, rdr, cPc, cSnap, cSched, cCopied, nopen>>
   /\ dirty' = TRUE
 
 \* persistSnapshotDirect: write every in-memory segment of pSnap to its file
@@ -179,7 +181,7 @@ PWrite ==
   /\ pPc = "write" /\ disk' = disk \cup MemSids(pSnap)
   /\ pPc' = IF MemSids(pSnap) = {} THEN "commit" ELSE "intro"
   /\ UNCHANGED <<batch, nsub, intro, segdocs, root, nextEp, nextSid, wst, pend, acked, pSnap, pAcks, pNew, lastP,
-                 mPc, mSnap, mTask, mNew, lastM, bolt, inel, elig, rdr, cPc, cSnap, cSched, cCopied>>
+                 mPc, mSnap, mTask, mNew, lastM, bolt, inel, elig, rdr, cPc, cSnap, cSched, cCopied, nopen>>
   /\ dirty' = TRUE
 
 PIntro ==
@@ -187,7 +189,7 @@ PIntro ==
   /\ root' = [ep |-> nextEp, segs |-> IntroPersistResult(root, MemSids(pSnap)), k |-> root.k]
   /\ nextEp' = nextEp + 1 /\ pPc' = "commit"
   /\ UNCHANGED <<batch, nsub, intro, segdocs, nextSid, wst, pend, acked, pSnap, pAcks, pNew, lastP,
-                 mPc, mSnap, mTask, mNew, lastM, bolt, disk, inel, elig, rdr, cPc, cSnap, cSched, cCopied>>
+                 mPc, mSnap, mTask, mNew, lastM, bolt, disk, inel, elig, rdr, cPc, cSnap, cSched, cCopied, nopen>>
   /\ dirty' = TRUE
 
 \* tx.Commit + Sync, then un-mark the names the committed snapshot carries
@@ -198,7 +200,7 @@ PCommit ==
      /\ bolt' = [bolt EXCEPT ![pSnap.ep] = s] /\ inel' = inel \ Files(s)
   /\ pPc' = "ack"
   /\ UNCHANGED <<batch, nsub, intro, segdocs, root, nextEp, nextSid, wst, pend, acked, pSnap, pAcks, pNew, lastP,
-                 mPc, mSnap, mTask, mNew, lastM, disk, elig, rdr, cPc, cSnap, cSched, cCopied>>
+                 mPc, mSnap, mTask, mNew, lastM, disk, elig, rdr, cPc, cSnap, cSched, cCopied, nopen>>
   /\ dirty' = TRUE
 
 \* close the persisted channels / fire callbacks of the batches taken in PTake
@@ -206,7 +208,7 @@ PAck ==
   /\ pPc = "ack" /\ acked' = acked \cup pAcks /\ lastP' = pSnap.ep
   /\ pPc' = IF root.ep # pSnap.ep \/ ~WithPurge THEN "idle" ELSE "purgeB"
   /\ UNCHANGED <<batch, nsub, intro, segdocs, root, nextEp, nextSid, wst, pend, pSnap, pAcks, pNew,
-                 mPc, mSnap, mTask, mNew, lastM, bolt, disk, inel, elig, rdr, cPc, cSnap, cSched, cCopied>>
+                 mPc, mSnap, mTask, mNew, lastM, bolt, disk, inel, elig, rdr, cPc, cSnap, cSched, cCopied, nopen>>
   /\ UNCHANGED dirty
 
 \* IndexSnapshot.DecRef reaching zero -> go AddEligibleForRemoval(epoch)
@@ -215,7 +217,7 @@ Release(e) ==
   /\ AsyncRelease /\ e \in 1..(nextEp - 1) /\ e # root.ep /\ e \notin Held /\ e \notin elig
   /\ elig' = elig \cup {e}
   /\ UNCHANGED <<batch, nsub, intro, segdocs, root, nextEp, nextSid, wst, pend, acked, pPc, pSnap, pAcks, pNew, lastP,
-                 mPc, mSnap, mTask, mNew, lastM, bolt, disk, inel, rdr, cPc, cSnap, cSched, cCopied>>
+                 mPc, mSnap, mTask, mNew, lastM, bolt, disk, inel, rdr, cPc, cSnap, cSched, cCopied, nopen>>
   /\ dirty' = TRUE
 
 \* the persister loop also runs when only woken by the merger (no new snapshot):
@@ -224,7 +226,7 @@ PWakePurge ==
   /\ WithPurge /\ pPc = "idle" /\ dirty /\ root.ep = lastP
   /\ pPc' = "purgeB"
   /\ UNCHANGED <<batch, nsub, intro, segdocs, root, nextEp, nextSid, wst, pend, acked, pSnap, pAcks, pNew, lastP,
-                 mPc, mSnap, mTask, mNew, lastM, bolt, disk, inel, elig, rdr, cPc, cSnap, cSched, cCopied, dirty>>
+                 mPc, mSnap, mTask, mNew, lastM, bolt, disk, inel, elig, rdr, cPc, cSnap, cSched, cCopied, dirty, nopen>>
 
 \* removeOldBoltSnapshots: eligible epochs that are not among the newest KeepN
 EligNow == IF AsyncRelease THEN elig ELSE { e \in 1..(nextEp - 1) : e # root.ep /\ e \notin Held }
@@ -235,7 +237,7 @@ PPurgeB ==
      /\ elig' = elig \ rem
   /\ pPc' = "purgeZ"
   /\ UNCHANGED <<batch, nsub, intro, segdocs, root, nextEp, nextSid, wst, pend, acked, pSnap, pAcks, pNew, lastP,
-                 mPc, mSnap, mTask, mNew, lastM, disk, inel, rdr, cPc, cSnap, cSched, cCopied>>
+                 mPc, mSnap, mTask, mNew, lastM, disk, inel, rdr, cPc, cSnap, cSched, cCopied, nopen>>
   /\ dirty' = FALSE
 
 \* removeOldZapFiles: remove what no bolt snapshot names, unless ineligible or scheduled for copy
@@ -244,14 +246,14 @@ PPurgeZ ==
   /\ disk' = { f \in disk : f \in Named \/ f \in inel \/ f \in cSched }
   /\ pPc' = "idle"
   /\ UNCHANGED <<batch, nsub, intro, segdocs, root, nextEp, nextSid, wst, pend, acked, pSnap, pAcks, pNew, lastP,
-                 mPc, mSnap, mTask, mNew, lastM, bolt, inel, elig, rdr, cPc, cSnap, cSched, cCopied>>
+                 mPc, mSnap, mTask, mNew, lastM, bolt, inel, elig, rdr, cPc, cSnap, cSched, cCopied, nopen>>
   /\ UNCHANGED dirty
 
 \* ---------------- file merger (merge.go) ----------------
 MTake == /\ Up /\ WithMerger /\ mPc = "idle" /\ root.ep # lastM /\ root.ep > 0
          /\ mSnap' = root /\ mPc' = "plan"
          /\ UNCHANGED <<batch, nsub, intro, segdocs, root, nextEp, nextSid, wst, pend, acked, pPc, pSnap, pAcks, pNew, lastP,
-                        mTask, mNew, lastM, bolt, disk, inel, elig, rdr, cPc, cSnap, cSched, cCopied>>
+                        mTask, mNew, lastM, bolt, disk, inel, elig, rdr, cPc, cSnap, cSched, cCopied, nopen>>
   /\ UNCHANGED dirty
 
 \* any plan the planner may produce: a task over file segments of the snapshot
@@ -261,13 +263,13 @@ MPlanWrite(T) ==
   /\ (MaxMergeInputs = 0 \/ Cardinality(T) <= MaxMergeInputs)
   /\ IF T = {} \/ MergedDocsOf(segdocs, mSnap, T) = {}
      THEN /\ mPc' = "idle" /\ lastM' = mSnap.ep
-          /\ UNCHANGED <<mTask, mNew, nextSid, inel, disk, segdocs>>
+          /\ UNCHANGED <<mTask, mNew, nextSid, inel, disk, segdocs, nopen>>
      ELSE /\ mTask' = T /\ mNew' = nextSid /\ nextSid' = nextSid + 1
           /\ inel' = inel \cup {nextSid} /\ disk' = disk \cup {nextSid}
           /\ segdocs' = [segdocs EXCEPT ![nextSid] = MergedDocsOf(segdocs, mSnap, T)]
           /\ mPc' = "intro" /\ lastM' = lastM
   /\ UNCHANGED <<batch, nsub, intro, root, nextEp, wst, pend, acked, pPc, pSnap, pAcks, pNew, lastP,
-                 mSnap, bolt, elig, rdr, cPc, cSnap, cSched, cCopied>>
+                 mSnap, bolt, elig, rdr, cPc, cSnap, cSched, cCopied, nopen>>
   /\ dirty' = TRUE
 
 MIntro ==
@@ -278,7 +280,7 @@ MIntro ==
      /\ mPc' = IF r.skipped THEN "cleanSkip" ELSE "cleanOk"
   /\ nextEp' = nextEp + 1
   /\ UNCHANGED <<batch, nsub, intro, segdocs, nextSid, wst, pend, acked, pPc, pSnap, pAcks, pNew, lastP,
-                 mSnap, mTask, mNew, lastM, bolt, disk, elig, rdr, cPc, cSnap, cSched, cCopied>>
+                 mSnap, mTask, mNew, lastM, bolt, disk, elig, rdr, cPc, cSnap, cSched, cCopied, nopen>>
   /\ dirty' = TRUE
 
 \* skipped introduction: un-mark the new file; always (deferred cleanup): un-mark the inputs
@@ -287,21 +289,21 @@ MClean ==
   /\ inel' = IF mPc = "cleanSkip" THEN (inel \ {mNew}) \ mTask ELSE inel \ mTask
   /\ lastM' = mSnap.ep /\ mPc' = "idle"
   /\ UNCHANGED <<batch, nsub, intro, segdocs, root, nextEp, nextSid, wst, pend, acked, pPc, pSnap, pAcks, pNew, lastP,
-                 mSnap, mTask, mNew, bolt, disk, elig, rdr, cPc, cSnap, cSched, cCopied>>
+                 mSnap, mTask, mNew, bolt, disk, elig, rdr, cPc, cSnap, cSched, cCopied, nopen>>
   /\ dirty' = TRUE
 
 \* ---------------- reader ----------------
-ROpen == /\ WithReader /\ rdr = NoSnap /\ root.ep > 0 /\ rdr' = root
+ROpen == /\ WithReader /\ rdr = NoSnap /\ root.ep > 0 /\ rdr' = root /\ nopen < MaxOpens /\ nopen' = nopen + 1
          /\ UNCHANGED <<batch, nsub, intro, segdocs, root, nextEp, nextSid, wst, pend, acked, pPc, pSnap, pAcks, pNew, lastP,
                         mPc, mSnap, mTask, mNew, lastM, bolt, disk, inel, elig, cPc, cSnap, cSched, cCopied, dirty>>
 RClose == /\ rdr # NoSnap /\ rdr' = NoSnap
           /\ UNCHANGED <<batch, nsub, intro, segdocs, root, nextEp, nextSid, wst, pend, acked, pPc, pSnap, pAcks, pNew, lastP,
-                         mPc, mSnap, mTask, mNew, lastM, bolt, disk, inel, elig, cPc, cSnap, cSched, cCopied, dirty>>
+                         mPc, mSnap, mTask, mNew, lastM, bolt, disk, inel, elig, cPc, cSnap, cSched, cCopied, dirty, nopen>>
 
 \* ---------------- online copy (CopyReader / CopyTo / CloseCopyReader) ----------------
 \* CopyReader schedules every file name of the root, including the names
 \* in-memory segments WILL get when persisted.
-COpen == /\ WithCopy /\ cPc = "idle" /\ root.ep > 0
+COpen == /\ WithCopy /\ cPc = "idle" /\ root.ep > 0 /\ nopen < MaxOpens /\ nopen' = nopen + 1
          /\ cSnap' = root /\ cSched' = Sids(root) /\ cCopied' = {} /\ cPc' = "copying"
          /\ UNCHANGED <<batch, nsub, intro, segdocs, root, nextEp, nextSid, wst, pend, acked, pPc, pSnap, pAcks, pNew, lastP,
                         mPc, mSnap, mTask, mNew, lastM, bolt, disk, inel, elig, rdr>>
@@ -310,18 +312,18 @@ COpen == /\ WithCopy /\ cPc = "idle" /\ root.ep > 0
 CFile(s) == /\ cPc = "copying" /\ s \in Sids(cSnap) \ cCopied
             /\ cCopied' = cCopied \cup {s}
             /\ UNCHANGED <<batch, nsub, intro, segdocs, root, nextEp, nextSid, wst, pend, acked, pPc, pSnap, pAcks, pNew, lastP,
-                           mPc, mSnap, mTask, mNew, lastM, bolt, disk, inel, elig, rdr, cPc, cSnap, cSched, dirty>>
+                           mPc, mSnap, mTask, mNew, lastM, bolt, disk, inel, elig, rdr, cPc, cSnap, cSched, dirty, nopen>>
 CClose == /\ cPc = "copying" /\ cCopied = Sids(cSnap)
           /\ cPc' = "idle" /\ cSched' = {} /\ cSnap' = NoSnap
           /\ UNCHANGED <<batch, nsub, intro, segdocs, root, nextEp, nextSid, wst, pend, acked, pPc, pSnap, pAcks, pNew, lastP,
-                         mPc, mSnap, mTask, mNew, lastM, bolt, disk, inel, elig, rdr, cCopied>>
+                         mPc, mSnap, mTask, mNew, lastM, bolt, disk, inel, elig, rdr, cCopied, nopen>>
           /\ dirty' = TRUE
 
 Next == \/ \E w \in Writers, bt \in BatchShapes : Prepare(w, bt)
         \/ \E w \in Writers : IntroSegment(w) \/ BatchReturn(w)
         \/ PTake \/ PMMWrite \/ PMMIntro \/ PMMCommit \/ PWrite \/ PIntro \/ PCommit \/ PAck
         \/ (WithPurge /\ ((\E e \in 1..MaxEp : Release(e)) \/ PWakePurge \/ PPurgeB \/ PPurgeZ))
-        \/ MTake \/ (\E T \in SUBSET (1..MaxSid) : MPlanWrite(T)) \/ MIntro \/ MClean
+        \/ MTake \/ (\E T \in SUBSET Files(mSnap) : MPlanWrite(T)) \/ MIntro \/ MClean
         \/ ROpen \/ RClose \/ COpen \/ (\E s \in 1..MaxSid : CFile(s)) \/ CClose
 Spec == Init /\ [][Next]_vars
 
@@ -378,6 +380,13 @@ CopyIsPrefix == cPc # "idle" => LiveDocs(cSnap) = Replay(cSnap.k)
 Shapes3 == { [puts |-> {"a"}, dels |-> {}], [puts |-> {"b"}, dels |-> {"a"}], [puts |-> {}, dels |-> {"a"}] }
 Shapes2 == { [puts |-> {"a"}, dels |-> {}], [puts |-> {"b"}, dels |-> {"a"}] }
 Shapes4 == Shapes3 \cup { [puts |-> {"a", "b"}, dels |-> {}] }
+
+\* batch shapes for simulation (schedule generation): every batch over three ids
+\* with at most two operations, including the empty batch
+SimIds == {"a", "b", "c"}
+ShapesSim == { [puts |-> p, dels |-> d] : p \in SUBSET SimIds, d \in SUBSET SimIds } \cap
+             { x \in [puts : SUBSET SimIds, dels : SUBSET SimIds] :
+                 x.puts \cap x.dels = {} /\ Cardinality(x.puts \cup x.dels) <= 2 }
 
 \* state constraint for exhaustive runs
 Bound == nextEp <= MaxEp + 1 /\ nextSid <= MaxSid + 1
